@@ -156,8 +156,9 @@ CHECKS["C20"] = {
     "level_text": "Generated histories against a reference: every queued frame is popped exactly once unless its stream was closed, per-stream order, control frames first, DATA pieces within stream window / connection window / max frame size and debited exactly, Pop()==false only when nothing is sendable, and the priority tree stays a tree rooted at stream 0 with consistent links, byte sums and retention caps.",
     "level_note": "Trusted: the reference model in overlay/http2/sched_test.go (per-stream FIFO lists, control list, window integers). Only calls the interface permits are generated (no double open, no HEADERS/DATA on a stream that is not open, client streams opened in increasing id order).",
     "assumptions": ["the random scheduler's choices depend on map iteration order; the oracle is a validity predicate, so this affects reproducibility of a failing history only"],
-    "units": [{"name": "c20", "pkg": "pkg/http2", "overlay": "http2", "run": "^TestVerifSched$", "shards": 12}],
-    "expect_checks": ["c20.sched"],
+    "units": [{"name": "c20", "pkg": "pkg/http2", "overlay": "http2", "run": "^TestVerifSched$", "shards": 12},
+              {"name": "c20l", "pkg": "pkg/http2", "overlay": "http2", "run": "^TestVerifSchedLongRun$", "shards": 6, "thorough_scale": 1.0}],
+    "expect_checks": ["c20.sched", "c20.long-run"],
 }
 
 CHECKS["C18"] = {
